@@ -138,6 +138,13 @@ class Extractor:
                     mm = re.search(r"Current\((-?\d+)\)", r.replace(" ", ""))
                     if mm:
                         return [Tok("SKIP", w=int(mm.group(1)), ln=n["ln"])]
+                    # a constant expression (`4 + 24`, `2 * 4`): evaluated
+                    mm = re.search(r"Current\((.*)\)$", r)
+                    if mm and re.fullmatch(r"[\d\s+*()-]+", mm.group(1)) and mm.group(1).count("(") == mm.group(1).count(")"):
+                        try:
+                            return [Tok("SKIP", w=int(eval(mm.group(1), {"__builtins__": {}})), ln=n["ln"])]
+                        except Exception:
+                            pass
             return []
         if name in ("read_u8", "write_u8") and False:
             return []
